@@ -14,7 +14,7 @@ MANIFEST = {
     "category": "proof",
     "technique": "contract-based deductive verification: the real loss functions executed on symbolic arrays; sums over symbolic ranges kept as BigSum terms and compared with the statement's formula by linearity + congruence (Fubini for reordering), z3 for the summands; key orders of both arguments enumerated",
     "text": "smse_loss, timestep_smse_loss and normalized_smse_loss are executed with symbolic batch, channel, step and spatial extents and opaque real values, for every pair of insertion orders of prediction and target (incl. the sorted order a jit round trip produces). The result is proved equal to the statement's formula indexed by type (so pairing by type is part of the post-condition), for reduce modes mean / None; steps sum to the total; zero on equal arguments; every summand is a non-negative square. Tests never call the losses.",
-    "note": "reals not floats; sums over symbolic ranges handled only by linearity/congruence/Fubini (Lean statements in lean/Rules.lean; correspondence by inspection); reduce='max' (argmax) is covered by the bounded native stand-in only; sqrt is an uninterpreted function with its defining axiom instantiated; invariance under a common group element is proved per group element in C02-dependent obligations (re-indexing rule) and bounded natively",
+    "note": "reals not floats; sums over symbolic ranges handled only by linearity/congruence/Fubini (Lean statements in lean/Rules.lean; correspondence by inspection); reduce='max': jnp.argmax over the symbolic batch axis is an uninterpreted index (its contract assumed); proved: the vector it is applied to is the per-entry totals and the result is the per-step loss of that one entry; sqrt is an uninterpreted function with its defining axiom instantiated; invariance under a common group element is proved per group element in C02-dependent obligations (re-indexing rule) and bounded natively",
 }
 FUNCTIONS = ["ginjax.ml.losses.smse_loss", "ginjax.ml.losses.timestep_smse_loss", "ginjax.ml.losses.normalized_smse_loss",
              "ginjax.geometric.functional_geometric_image.norm", "MultiImage.get_n_leading", "MultiImage.get_spatial_dims", "MultiImage.get_L"]
@@ -42,6 +42,7 @@ def jobs(tier):
                     for reduce in (["mean", None] if fn != "normalized" else ["mean"]):
                         out.append(("gvc.props.c18", "ob_loss", dict(fn=fn, D=D, kx=list(oa), ky=list(ob_), reduce=reduce)))
             out.append(("gvc.props.c18", "ob_lemmas", dict(D=D, ks=list(ks))))
+            out.append(("gvc.props.c18", "ob_timestep_max", dict(D=D, kx=list(orders[0]), ky=list(orders[-1]))))
     return out
 
 
@@ -246,3 +247,60 @@ def ob_lemmas(D, ks):
         return st, "", m
     obs.append(guard(_nm("lemma:summand-zero-only-if-equal", **structure), "lemma", body4, structure))
     return obs
+
+
+def ob_timestep_max(D, kx, ky):
+    """timestep_smse_loss(reduce='max'): the per-step losses of ONE batch entry r -- the entry jnp.argmax picks from the
+    per-entry totals.  jnp.argmax over the symbolic batch axis is an uninterpreted index 0 <= r < batch (its contract -- an
+    index attaining the maximum -- is assumed from JAX); what is proved about ginjax: (i) the array handed to argmax is the
+    vector of per-entry totals (sum over steps of the statement's per-step loss), (ii) the result is, for every step t, the
+    statement's per-step loss of that same entry r.  Hence the steps returned sum to the total of a worst entry."""
+    G, Ls = geom(), losses()
+    ks = sorted(kx)
+    W, Bt, T, X, Y, C = _setup(D, ks, True)
+    structure = dict(D=D, keys_pred=kx, keys_target=ky, reduce="max")
+    t_ = tuple(i % 2 == 0 for i in range(D))
+    name = _nm("timestep_smse_loss", **structure)
+    jnp_ = Ls.__dict__["jnp"]
+
+    def body():
+        seen = []
+        saved = jnp_.__dict__.get("argmax")
+
+        def argmax_stub(a, axis=None, **kw):
+            a = arr.lift(a)
+            if a.ndim != 1 or axis not in (None, 0, -1):
+                raise sym.OutOfReach("argmax is not taken over a vector of per-entry totals")
+            r = z3.Int(sym.fresh_name("worst"))
+            sym.CTX.path += [r >= 0, r < zi(a.shape[0])]
+            seen.append((a, r))
+            return SInt(r)
+        verdicts = []
+        jnp_.argmax = argmax_stub
+        try:
+            for out in sym.run_paths(lambda: Ls.timestep_smse_loss(G.MultiImage({k: X[k] for k in kx}, D, t_), G.MultiImage({k: Y[k] for k in ky}, D, t_), T.ext, "max"), W.pre):
+                sym.CTX.path = list(out["path"])
+                if "raised" in out:
+                    return "refuted", f"raises {out['raised']!r}", None
+                if len(seen) != 1:
+                    return "refuted", f"jnp.argmax called {len(seen)} times: the entry must be chosen once, for all steps together", None
+                a, r = seen[-1]
+                st = arr.compare(a, arr.SArray([Bt], lambda idx: bigsum.bigsum([T], lambda v: spec_timestep(W, D, Bt, T, X, Y, C, idx[0], v[0]))), "vector given to argmax vs per-entry totals")
+                if st[0] != "proved":
+                    return st
+                st = arr.compare(arr.lift(out["result"]), arr.SArray([T], lambda idx: spec_timestep(W, D, Bt, T, X, Y, C, r, idx[0])), "per-step losses of the chosen entry")
+                if st[0] != "proved":
+                    return st
+                verdicts.append(st)
+                seen.clear()
+        finally:
+            if saved is None:
+                jnp_.__dict__.pop("argmax", None)
+            else:
+                jnp_.argmax = saved
+        if not verdicts:
+            return "undecided", "no path", None
+        return "proved", f"{len(verdicts)} path(s): one entry chosen from the per-entry totals, its per-step losses returned", None
+    o = guard(name + "/ensures:steps-of-one-worst-entry", "ensures", body, structure)
+    o["replay"] = dict(scenario="loss", fn="timestep", model=o.get("model"), **structure)
+    return [o]
